@@ -143,6 +143,12 @@ def run(rep, wd, tier, seed):
             jobs.append((seed, cfgspec, codec, 'padding', 0, 0))
             jobs.append((seed, cfgspec, codec, 'derived', 0, 600 if tier == 'thorough' else 80))
     outs = isocheck._pool(_drive, jobs)
+    tjobs = [(seed, cfgspec, codec, 'derived', 1000 + 100 * i, 1000 + 100 * i + (200 if tier == 'thorough' else 90))
+             for i, (cfgspec, codec) in enumerate([(('pkg',), 'latin_1'), (gen, 'cp500'), (('pkgshuf', 1), 'latin_1'), (('pkg',), 'cp500'),
+                                                   (gen, 'latin_1'), (('pkgshuf', 2), 'cp500'), (('pkg',), 'latin_1'), (gen, 'cp500')])]
+    jobs = jobs + tjobs
+    outs = outs + isocheck.mark_threaded(isocheck.threaded('harness.c02', '_drive', tjobs))
+    rep.extra['histories_driven_from_four_threads_at_once'] = sum(len(o) for o in outs[-len(tjobs):])
     groups = {}
     for j, o in zip(jobs, outs):
         # renumber trace ids per (config, codec) group
